@@ -112,8 +112,8 @@ static void log_table(session_table *t) {
     if (t) for (int i = 0; i < SESSION_TABLE_MAX_ENTRIES; i++) {
         session_entry *e = &t->entries[i];
         if (!e->valid) continue;
-        fprintf(tr, "%s[%ld,%u,%d,%llu,%u]", first ? "" : ",", key_of_mac(e->mapper_mac), e->generation,
-                e->complete ? 1 : 0, (unsigned long long)e->last_activity_ts, e->seq_number);
+        fprintf(tr, "%s[%ld,%u,%d,%llu,%u,%u]", first ? "" : ",", key_of_mac(e->mapper_mac), e->generation,
+                e->complete ? 1 : 0, (unsigned long long)e->last_activity_ts, e->seq_number, e->state);
         first = 0;
     }
     fprintf(tr, "]");
@@ -320,10 +320,11 @@ int main(int argc, char **argv) {
                 memcpy(cur->recvBuffer, fb, n);
                 vp_cur = &cur->v;
                 vp_out_begin();
+                unsigned long long now0 = vp_now_ms;     /* the frame path itself may let time pass (reply pause) */
                 glue_frame(cur, (ssize_t)len);
                 vp_cur = NULL;
                 ev_begin("glue");
-                fprintf(tr, "\"op\":%u,\"tos\":%u,\"len\":%zu,\"rs\":", n > 17 ? fb[17] : 0, n > 15 ? fb[15] : 0, len);
+                fprintf(tr, "\"op\":%u,\"tos\":%u,\"len\":%zu,\"now0\":%llu,\"rs\":", n > 17 ? fb[17] : 0, n > 15 ? fb[15] : 0, len, now0);
                 vp_json_bytes(tr, n >= 30 ? fb + 24 : (const uint8_t *)"\0\0\0\0\0\0", 6);
                 fprintf(tr, ",\"gen\":%u,\"seq\":%u,", n >= 34 ? (fb[32] << 8 | fb[33]) : 0, n >= 32 ? (fb[30] << 8 | fb[31]) : 0);
                 log_state();
